@@ -156,6 +156,14 @@ def parse_observed(source, stop=False, matcher=None, parser=None, idgen=None, bu
             if as_file and file_loadable(source):
                 from gherkin.token_scanner import TokenScanner
                 tmp_path = os.path.abspath("vf-observed-%d.feature" % os.getpid())
+                if len(source) % 3 == 0:
+                    # a path longer than 255 characters (every component shorter than that): still a path
+                    long_dir = os.path.join(os.getcwd(), "d" * 120, "e" * 120, "f" * 120)
+                    try:
+                        os.makedirs(long_dir, exist_ok=True)
+                        tmp_path = os.path.join(long_dir, "vf-observed-%d.feature" % os.getpid())
+                    except OSError:
+                        pass
                 with open(tmp_path, "wb") as fh:
                     fh.write(source.encode("utf8"))
                 arg = TokenScanner(tmp_path)
